@@ -202,6 +202,33 @@ def work_substances(idx, chunk, seed, reps):
                     if r2 is not None and expect_eq(part, "input_of_result", q2, r2, a, i.d):
                         part.count("inverse_ok")
                         part.seen("%s|%s|inverse" % (sname, pname))
+                # A2z: an amount of zero gives zero (not a division by zero), in both directions
+                if rng.random() < 0.3:
+                    qz = "%s of (0 %s %s)" % (on, base_product(i.d), rs)
+                    rz = ask(part, probe, qz)
+                    if rz is not None and expect_eq(part, "output_of_amount", qz, rz, Fraction(0), o.d, {"amount": "zero"}):
+                        part.count("zero_amount_ok")
+                    if o.d:
+                        qz2 = "%s of (0 %s %s)" % (inn, base_product(o.d), rs)
+                        rz2 = ask(part, probe, qz2)
+                        if rz2 is not None and expect_eq(part, "input_of_result", qz2, rz2, Fraction(0), i.d, {"amount": "zero"}):
+                            part.count("zero_amount_ok")
+                # A4c: a plain number where the property needs a dimensioned amount is a wrong dimensionality as well
+                if rng.random() < 0.3 and on not in sub["props"] and inn not in sub["props"]:
+                    qc = "%s of (%s %s)" % (on, lit(abs(a) + 1), rs)
+                    rc = ask(part, probe, qc)
+                    if rc is not None:
+                        kindc = (rc.get("r") or {}).get("kind", "")
+                        if kindc in ("number", "duration", "conversion", "substance"):
+                            part.violation({"kind": "wrong_dimension_amount_accepted", "case": "plain number"},
+                                           {"query": qc, "reply": (rc.get("text") or "")[:250]}, "")
+                        elif kindc != "err_conformance":
+                            part.violation({"kind": "wrong_dimension_not_conformance_error", "got": kindc, "case": "plain number",
+                                            "message": _norm((rc.get("r") or {}).get("message"))},
+                                           {"query": qc, "reply": (rc.get("text") or "")[:250]},
+                                           "a plain number as the amount of a dimensioned property is not refused with a conformance error")
+                        else:
+                            part.count("plain_number_amount_refused")
                 # A7: the plain reply to `<amount> <substance>` reports the same property values (as printed)
                 if a > 0:
                     for (amt_d, amt_1, shown_name, shown_v, shown_d) in ((i.d, i.v, on, o.v, o.d), (o.d, o.v, inn, i.v, i.d)):
@@ -383,7 +410,9 @@ def work_formulas(idx, _chunk, seed, n):
         else:
             base = rng.choice(syms) + rng.choice(["", "2", "12"]) + rng.choice(syms)
             name = rng.choice([base.lower(), base + "x", "Xx" + base, base + "_2", base + "2x", "Q" + base,
-                               base + "99999999999", base + str(2 ** 32), "J" + rng.choice(["", "2"]), base[0] + "j" + base])
+                               base + "99999999999", base + str(2 ** 32), "J" + rng.choice(["", "2"]), base[0] + "j" + base,
+                               # counts nobody writes: zero, leading zeros
+                               base + "0", base + "02", base + "00", rng.choice(syms) + "0" + rng.choice(syms), base + "0000000001"])
             kind = "near-miss"
             want = None
         # what the name denotes by rink's own documented resolution order: a unit, a substance, else a formula
@@ -403,6 +432,9 @@ def work_formulas(idx, _chunk, seed, n):
                 if t in mm:
                     c = 1
                     if i2 + 1 < len(toks) and toks[i2 + 1].isdigit():
+                        if toks[i2 + 1].startswith("0"):
+                            wf = False          # a count of zero / with leading zeros is not a well-formed count
+                            break
                         c = int(toks[i2 + 1])
                         i2 += 1
                     total += mm[t].v * c
